@@ -19,3 +19,4 @@ pub mod panic_hook;
 pub mod rangeset;
 pub mod rustls;
 pub mod task_handler;
+pub mod verif;
